@@ -66,8 +66,11 @@ Definition frontierUsesAuthority (s : rstate) (a : authid) : bool :=
 
 (* ---- the network of the harness -------------------------------------------------------- *)
 
-Record faults := Flt { fl_lose : list N; fl_drop : list N; fl_rb : option N }.
-Definition no_faults : faults := Flt [] [] None.
+(* fl_lose / fl_drop: responses lost / requests never delivered, for the whole call; fl_rb: crash point
+   between recovery pages; fl_pdrop: voters whose IDENTITY-PAGE probe replies (probe rounds with a non-empty
+   index list) are lost although they answered the frontier round *)
+Record faults := Flt { fl_lose : list N; fl_drop : list N; fl_rb : option N; fl_pdrop : list N }.
+Definition no_faults : faults := Flt [] [] None [].
 
 Record net := Net {
   nt_kind : store_kind;
@@ -219,6 +222,7 @@ Definition runDurableRound (n : net) (local : N) (voters : list N) (wq rot : N) 
    ExchangeServer.Handle + validPeerProbeResult.  None = the completion carries an error *)
 Definition submitRecoveryProbe (n : net) (local v : N) (indexes : list N) : option (rstate * list probe) :=
   if unreachable n local v then None
+  else if negb (v =? local) && negb (lenN indexes =? 0) && memN v (fl_pdrop (nt_flt n)) then None
   else if negb (net_known n v) then None
   else load (nt_kind n) (net_rep n v) indexes.
 
